@@ -132,6 +132,7 @@ def step (req : Sexp) : Sexp :=
   match req with
   | .list [.atom "sanitize", .str s] => exc (sanitize s)
   | .list [.atom "sanitize_struct", .str s] => exc (sanitizeStruct s)
+  | .list [.atom "sanitize_filename", .str s] => exc (schemaFile s)
   | .list [.atom "snake", .str s] => .str (toSnake s)
   | .list [.atom "pascal", .str s] => .str (toPascal s)
   | .list [.atom "screaming", .str s] => .str (toScreamingSnake s)
